@@ -108,9 +108,20 @@ type KnownFinding struct {
 	Finding  string `json:"finding,omitempty"`
 }
 
+// FixedFinding records a repaired defect. It suppresses nothing: if the
+// obligation is violated again it is reported as a VIOLATION.
+type FixedFinding struct {
+	Property string `json:"property"`
+	Key      string `json:"key"`
+	Finding  string `json:"finding,omitempty"`
+	Commit   string `json:"commit"`
+	Record   string `json:"record"`
+}
+
 type KnownFile struct {
 	Known []KnownFinding `json:"known"`
-	Fixed []string       `json:"fixed"`
+	Fixed []FixedFinding `json:"fixed"`
+	Note  string         `json:"_note,omitempty"`
 }
 
 func LoadKnown(path string) (*KnownFile, error) {
